@@ -3625,7 +3625,10 @@ func tabSize(tokens []Token, _ string) pr.CssProperty {
 			return pr.NewDim(pr.Float(number.ValueF), 0).ToValue()
 		}
 	}
-	return getLength(token, false, false).ToValue()
+	if l := getLength(token, false, false); !l.IsNone() {
+		return l.ToValue()
+	}
+	return nil
 }
 
 // @validator(unstable=true)
